@@ -343,9 +343,14 @@ func c03(r *core.Run) {
 			if cal := c.Common().StaticCallee(); cal != nil && cal.Name() == "subscribe" {
 				subscribe = c
 			}
-			if core.IsGo(c) && c.Common().StaticCallee() == a.Worker && firstGo == nil {
-				firstGo = c
-			}
+		}
+		startSites := workerStartSites(p, fn, a)
+		if len(startSites) > 0 {
+			firstGo = startSites[0]
+		}
+		isStart := map[ssa.Instruction]bool{}
+		for _, ss := range startSites {
+			isStart[ss] = true
 		}
 		need := []core.Field{a.NC, a.InCh, a.Cond, a.RWork, a.WorkQueue}
 		for _, f := range need {
@@ -371,7 +376,7 @@ func c03(r *core.Run) {
 			}
 		}
 		r.Check(condOK, "S2", fname, "cond.L==&mu", p.Pos(fn.Pos()), "the worker condition is bound to the queue mutex", "the worker condition's Locker is not the queue mutex")
-		r.Check(storeStarted != nil && firstGo != nil && workersDominate(fn, a, storeStarted), "S2", fname, "go-workers-dom-Store(started)", posOf(p, storeStarted), "all workers are started before the service is published as started", "Store(started) is not after the worker start loop")
+		r.Check(storeStarted != nil && firstGo != nil && workersDominate(startSites, storeStarted), "S2", fname, "go-workers-dom-Store(started)", posOf(p, storeStarted), "all workers are started before the service is published as started", "Store(started) is not after the worker start loop")
 		r.Check(storeStarted != nil && subscribe != nil && core.Dominates(storeStarted, subscribe), "S2", fname, "Store(started)-dom-subscribe", posOf(p, subscribe), "requests can only arrive after the service accepts submissions", "subscriptions are made before the service is started: early requests would be refused by enqueue and never answered")
 		// serve waits for workers before returning on every path after they were started
 		// typestate: 1 = workers were started and not yet awaited
@@ -380,7 +385,7 @@ func c03(r *core.Run) {
 			fl := &core.Flow{Fn: fn, Entry: core.StateSet(0).Add(0)}
 			fl.Transfer = func(in ssa.Instruction, st int) core.StateSet {
 				if c, ok := in.(ssa.CallInstruction); ok {
-					if core.IsGo(c) && c.Common().StaticCallee() == a.Worker {
+					if isStart[in] {
 						return core.StateSet(0).Add(1)
 					}
 					if cal := c.Common().StaticCallee(); cal != nil && cal.String() == "(*sync.WaitGroup).Wait" && !core.IsGo(c) && !core.IsDefer(c) {
@@ -615,12 +620,7 @@ func c03(r *core.Run) {
 	}
 
 	// ---- N1 --------------------------------------------------------------
-	var firstGo ssa.Instruction
-	for _, c := range core.Calls(a.Serve) {
-		if core.IsGo(c) && firstGo == nil {
-			firstGo = c
-		}
-	}
+	firstGo := firstWorkerStart(p, a)
 	for _, ac := range core.FieldAccesses(root, func(f core.Field) bool { return f == a.NC || f == a.InCh }) {
 		if !ac.Write || ac.Kind == "close" {
 			continue
@@ -656,73 +656,142 @@ func isServeEntry(fn *ssa.Function, entries []*ssa.Function) bool {
 
 // workersDominate: the Store(started) is not reachable without having passed
 // the loop head of the worker start loop, and no go-worker is reachable after it.
-func workersDominate(fn *ssa.Function, a *svcAnchors, storeStarted ssa.Instruction) bool {
-	for _, c := range core.Calls(fn) {
-		if core.IsGo(c) && c.Common().StaticCallee() == a.Worker {
-			// loop head = a block that dominates both the go and the store
-			if core.Reaches(storeStarted, c) {
-				return false
-			}
-			if !core.Reaches(c, storeStarted) {
-				return false
+func workersDominate(startSites []ssa.Instruction, storeStarted ssa.Instruction) bool {
+	for _, c := range startSites {
+		if core.Reaches(storeStarted, c) {
+			return false
+		}
+		if !core.Reaches(c, storeStarted) {
+			return false
+		}
+	}
+	return len(startSites) > 0
+}
+
+// c03WorkersBeforeStarted (C02.H2 = C03.S2's obligation): the store of the
+// started state in serve comes after every worker start and no worker is started
+// after it.
+func c03WorkersBeforeStarted(r *core.Run, rule string, a *svcAnchors, root []*ssa.Function) {
+	p := r.P
+	ops, _ := stateOps(root, a)
+	var storeStarted ssa.Instruction
+	for _, op := range ops {
+		if op.Fn == a.Serve && op.Op == "store" {
+			storeStarted = op.Instr
+		}
+	}
+	ss := workerStartSites(p, a.Serve, a)
+	r.Check(storeStarted != nil && workersDominate(ss, storeStarted), rule, core.FuncName(a.Serve), "go-workers-dom-Store(started)", posOf(p, storeStarted), "all workers are started before the service accepts callbacks", "the service is published as started (enqueue accepts callbacks) before its workers are started: callbacks accepted in between wait for a worker that does not exist yet")
+}
+
+// firstWorkerStart: the first instruction of serve that starts a worker; what
+// dominates it runs before any other goroutine of the run exists.
+func firstWorkerStart(p *core.Prog, a *svcAnchors) ssa.Instruction {
+	if a.Serve == nil {
+		return nil
+	}
+	if ss := workerStartSites(p, a.Serve, a); len(ss) > 0 {
+		return ss[0]
+	}
+	return nil
+}
+
+// workerStartSites: the instructions of fn that start workers - the go
+// statements on the worker loop, or the plain calls of a private helper that
+// contains them (startWorkers()).
+func workerStartSites(p *core.Prog, fn *ssa.Function, a *svcAnchors) []ssa.Instruction {
+	var out []ssa.Instruction
+	seen := map[ssa.Instruction]bool{}
+	for _, h := range p.Helpers(fn) {
+		for _, c := range core.Calls(h) {
+			if core.IsGo(c) && c.Common().StaticCallee() == a.Worker {
+				for _, site := range p.Lift(c, fn) {
+					if !seen[site] {
+						seen[site] = true
+						out = append(out, site)
+					}
+				}
 			}
 		}
 	}
-	return true
+	return out
 }
 
 func c03Workers(r *core.Run, a *svcAnchors, e *lockEngine) {
 	p := r.P
 	fn := a.Serve
 	fname := core.FuncName(fn)
-	// Add operand vs loop bound
+	// Add operand vs loop bound (the Add and the loop may sit in a private helper of serve)
 	var addArg ssa.Value
 	var addCall ssa.Instruction
-	for _, c := range core.Calls(fn) {
-		if cal := c.Common().StaticCallee(); cal != nil && cal.String() == "(*sync.WaitGroup).Add" {
-			if f, ok := core.FieldOf(c.Common().Args[0]); ok && f == a.WG {
-				addArg = c.Common().Args[1]
-				addCall = c
-			}
-		}
-	}
 	var goInstr ssa.Instruction
-	for _, c := range core.Calls(fn) {
-		if core.IsGo(c) && c.Common().StaticCallee() == a.Worker {
-			goInstr = c
+	for _, h := range p.Helpers(fn) {
+		for _, c := range core.Calls(h) {
+			if cal := c.Common().StaticCallee(); cal != nil && cal.String() == "(*sync.WaitGroup).Add" {
+				if f, ok := core.FieldOf(c.Common().Args[0]); ok && f == a.WG {
+					addArg = c.Common().Args[1]
+					addCall = c
+				}
+			}
+			if core.IsGo(c) && c.Common().StaticCallee() == a.Worker {
+				goInstr = c
+			}
 		}
 	}
 	af, aok := core.LoadedField(addArg)
 	boundOK := false
 	if goInstr != nil && aok {
+		isField := func(v ssa.Value) bool { bf, ok := core.LoadedField(v); return ok && bf == af }
+		isZero := func(v ssa.Value) bool { c, ok := core.ConstInt(v); return ok && c == 0 }
 		for _, ed := range dominatingEdges(goInstr) {
-			if bo, ok := ed.If.Cond.(*ssa.BinOp); ok && bo.Op == token.LSS && ed.Succ == 0 {
-				if bf, ok := core.LoadedField(bo.Y); ok && bf == af {
-					if phi, ok := bo.X.(*ssa.Phi); ok {
-						z, o := false, false
-						for _, x := range phi.Edges {
-							if c, ok := core.ConstInt(x); ok && c == 0 {
-								z = true
-							}
-							if b2, ok := x.(*ssa.BinOp); ok && b2.Op == token.ADD && b2.X == ssa.Value(phi) {
-								if c, ok := core.ConstInt(b2.Y); ok && c == 1 {
-									o = true
-								}
-							}
+			bo, ok := ed.If.Cond.(*ssa.BinOp)
+			if !ok || ed.Succ != 0 {
+				continue
+			}
+			// normalise to  counter OP limit
+			x, y, op := bo.X, bo.Y, bo.Op
+			if _, isPhi := x.(*ssa.Phi); !isPhi {
+				x, y = y, x
+				switch op {
+				case token.LSS:
+					op = token.GTR
+				case token.GTR:
+					op = token.LSS
+				}
+			}
+			phi, ok := x.(*ssa.Phi)
+			if !ok {
+				continue
+			}
+			var init ssa.Value
+			step := int64(0)
+			for _, e2 := range phi.Edges {
+				if b2, ok := e2.(*ssa.BinOp); ok && b2.X == ssa.Value(phi) && (b2.Op == token.ADD || b2.Op == token.SUB) {
+					if c, ok := core.ConstInt(b2.Y); ok && c == 1 {
+						step = 1
+						if b2.Op == token.SUB {
+							step = -1
 						}
-						boundOK = z && o
+						continue
 					}
 				}
+				init = e2
+			}
+			switch {
+			case op == token.LSS && step == 1 && init != nil && isZero(init) && isField(y): // for i := 0; i < n; i++
+				boundOK = true
+			case op == token.GTR && step == -1 && init != nil && isField(init) && isZero(y): // for i := n; i > 0; i--
+				boundOK = true
 			}
 		}
 		// no store to the count field in serve
-		for _, ac := range core.FieldAccesses([]*ssa.Function{fn}, func(f core.Field) bool { return f == af }) {
+		for _, ac := range core.FieldAccesses(p.Helpers(fn), func(f core.Field) bool { return f == af }) {
 			if ac.Write {
 				boundOK = false
 			}
 		}
 	}
-	r.Check(boundOK && addCall != nil && goInstr != nil && core.Dominates(addCall, goInstr), "S4", fname, "wg.Add(n)==n-go-statements", posOf(p, addCall), "WaitGroup.Add(n) precedes a 0..n loop of go worker over the same field "+af.String(), "WaitGroup.Add operand and the number of started workers are not provably the same (Wait would hang or return early)")
+	r.Check(boundOK && addCall != nil && goInstr != nil && p.DominatesIn(fn, addCall, goInstr), "S4", fname, "wg.Add(n)==n-go-statements", posOf(p, addCall), "WaitGroup.Add(n) precedes a 0..n loop of go worker over the same field "+af.String(), "WaitGroup.Add operand and the number of started workers are not provably the same (Wait would hang or return early)")
 
 	w := a.Worker
 	wname := core.FuncName(w)
